@@ -299,6 +299,11 @@ fixed("C08", "C08:burst-behind-incomplete-keypress-not-a-paste", "8474a00",
       [{"kind": "behind-incomplete", "paste_threshold": 8, "pre": B(b"ab".hex()), "char": B("e282ac"), "cut": 2,
         "burst": B((b"x" * 500).hex())}])
 
+fixed("C18", "C18:non-ascii-digits-taken-for-a-report", "0292b3b",
+      "typed-ahead ESC[<non-ASCII digits>;<digits>R was taken for the terminal's report (\\d on a str pattern)",
+      [{"kind": "parse", "extra": "a\x1b[٣;٤R", "csi": "\x1b[", "row": 3, "col": 7, "trailing": "", "fail_at": [],
+        "callback": True, "encoding": "utf-8"}])
+
 known("C03", "C03:prefix-then-undecodable-byte",
       "get_key raises UnicodeDecodeError for a table-sequence prefix (e.g. ESC) followed by a byte >= 0x80 "
       "that does not decode: ESC + any 8-bit byte under ascii, ESC + a UTF-8 lead/continuation byte under utf-8",
